@@ -307,8 +307,21 @@ func (s *sys) update(t *rapid.T) {
 	def := uniform(t, "default", 2) == 0
 	k := dbKey{m.org, m.db}
 	wasDefault := s.def[k] == m.id
-	s.logf("update(org#%v,#%v live=%v %s %s->%s,default %v->%v)", org, m.id, m.live, m.db, m.rp, rp, wasDefault, def)
-	err := s.svc.Update(s.ctx, &influxdb.DBRPMapping{ID: m.id, OrganizationID: org, Database: m.db, RetentionPolicy: rp, BucketID: m.bucket, Default: def})
+	// Update documents database and bucket as fields "that cannot change" and overwrites them with
+	// the stored ones: a request body carrying other values must behave exactly like one carrying
+	// the stored values.
+	reqDB, reqBucket := m.db, m.bucket
+	if uniform(t, "body-other-db", 4) == 0 {
+		reqDB = dbs[uniform(t, "body-db", len(dbs))]
+		if reqDB != m.db {
+			rec.Class("update:body-names-another-database")
+		}
+	}
+	if uniform(t, "body-other-bucket", 8) == 0 {
+		reqBucket = m.bucket + 1000
+	}
+	s.logf("update(org#%v,#%v live=%v %s %s->%s,default %v->%v body db=%s bucket=%v)", org, m.id, m.live, m.db, m.rp, rp, wasDefault, def, reqDB, reqBucket)
+	err := s.svc.Update(s.ctx, &influxdb.DBRPMapping{ID: m.id, OrganizationID: org, Database: reqDB, RetentionPolicy: rp, BucketID: reqBucket, Default: def})
 	if !m.live || org != m.org {
 		if err == nil || ierrors.ErrorCode(err) != ierrors.ENotFound {
 			s.fail(t, "update-missing-accepted", "updating a deleted mapping / a mapping of another organization must fail with not found, got %v", err)
